@@ -192,9 +192,10 @@ example : (honestRun { cReq with methods := ["PASSWORD"] } sOpt (fun _ => false)
     is removed from the mask) ends in success with a method that works, WHENEVER some offered method
     works with the two parties' credentials — for every server order, every client order and any
     number of failing methods tried first. Hypothesis `BitSys`: the methods in play have distinct
-    single-bit mask values (true of every implemented method except that SCITOKENS and IDTOKENS
-    share one bit: lists that contain both are outside this theorem and are covered by the matrix
-    engine). -/
+    single-bit mask values (true of every implemented method except that TOKEN and IDTOKENS, two
+    spellings of one method running one exchange, share a bit; before the fix F-C10-idtokens-bit
+    IDTOKENS shared SCITOKENS' bit instead, and lists naming both — run by the matrix engine — made
+    the two ends run different exchanges). -/
 theorem retry_loop_complete (own offered : List String) (credOK : String → Bool)
     (hs : BitSys own offered) (hgood : ∃ g, g ∈ offered ∧ credOK g = true) :
     ∃ m ran, jointLoop offered own credOK (offered.length + 1) (bitmaskOf offered) [] = .success m ran ∧
@@ -226,11 +227,102 @@ theorem honest_auth_complete (c : ClientCfg) (s : ServerCfg) (d : Decision) (cre
 example : BitSys ["FS", "TOKEN", "KERBEROS", "SCITOKENS", "SSL", "CLAIMTOBE", "PASSWORD"] ["SSL", "PASSWORD", "FS", "CLAIMTOBE"] :=
   bitSys_of_check (by decide)
 /-- and fails, as it must, when both spellings of the shared bit are listed -/
-example : bitSysCheck ["SCITOKENS", "IDTOKENS"] ["SCITOKENS"] = false := by decide
+example : bitSysCheck ["TOKEN", "IDTOKENS"] ["TOKEN"] = false := by decide
 /-- a run: the server prefers FS and KERBEROS, which fail between these two parties; SSL works -/
 example : (match jointLoop ["SSL", "FS", "KERBEROS"] ["FS", "KERBEROS", "SSL"] (fun m => m == "SSL") 4
       (bitmaskOf ["SSL", "FS", "KERBEROS"]) [] with
     | .success m ran => (m, ran)
     | _ => ("", [])) = ("SSL", [("FS", false), ("KERBEROS", false), ("SSL", true)]) := by decide
+
+/-! ### The whole honest run against the table; the denial and the session id as messages -/
+
+/-- method / cipher list shapes of the quantifier (equal, disjoint, overlapping in both orders, empty on
+    either side, the unimplemented PASSWORD only / first, two usable methods in both orders, no common
+    cipher): `(client methods, server methods, client ciphers, server ciphers)` -/
+def shapes : List (List String × List String × List String × List String) :=
+  [ (["CLAIMTOBE"], ["CLAIMTOBE"], ["AES"], ["AES"]),
+    (["PASSWORD"], ["PASSWORD"], ["AES"], ["AES"]),
+    (["CLAIMTOBE"], ["PASSWORD"], ["AES"], ["AES"]),
+    (["CLAIMTOBE", "PASSWORD"], ["PASSWORD", "CLAIMTOBE"], ["AES"], ["AES"]),
+    (["CLAIMTOBE"], ["CLAIMTOBE"], ["AES"], ["3DES"]),
+    ([], ["CLAIMTOBE"], ["AES"], ["AES"]),
+    (["CLAIMTOBE"], [], ["AES"], ["AES"]),
+    (["FS", "CLAIMTOBE"], ["FS", "CLAIMTOBE"], ["AES"], ["AES"]),
+    (["CLAIMTOBE", "FS"], ["FS", "CLAIMTOBE"], ["AES"], []) ]
+
+/-- does a method exist that both list, that this build implements and that works between the two
+    parties (`credOK`); does a common cipher exist — written without `negotiateSecurity` -/
+def usableMethod (cm sm : List String) (credOK : String → Bool) : Bool :=
+  sm.any (fun m => cm.contains m && credOK m && m != "PASSWORD" && m != "NONE")
+def commonCipher (cc sc : List String) : Bool := sc.any (fun x => cc.contains x)
+
+/-- one cell of the matrix run through `honestRun`, compared with the table: the handshake fails on
+    both ends exactly when the table says so, and then — and only then — the client holds an
+    explicit denial; otherwise both succeed, authentication ran / encryption is on as the table
+    says (encryption at least), and both report the same flags -/
+def cellOK (sa ca se ce : Fin 4) (sh : List String × List String × List String × List String)
+    (credOK : String → Bool) : Bool :=
+  let c : ClientCfg := { auth := lvl ca, enc := lvl ce, integ := lvlOptional, methods := sh.1, ciphers := sh.2.2.1 }
+  let s : ServerCfg := { auth := lvl sa, enc := lvl se, integ := lvlOptional, methods := sh.2.1, ciphers := sh.2.2.2 }
+  let r := honestRun c s credOK "u" "sid"
+  match table sa ca se ce (usableMethod sh.1 sh.2.1 credOK) (commonCipher sh.2.2.1 sh.2.2.2), r.client, r.server with
+  | none, .error _, .error _ => r.denied
+  | some (a, e), .ok co, .ok so =>
+    !r.denied && co.reportedAuth == a && so.reportedAuth == a && (!e || (co.streamKey.isSome && so.streamKey.isSome)) &&
+      co.reportedEnc == so.reportedEnc && co.sid == so.sid
+  | _, _, _ => false
+
+set_option maxRecDepth 100000 in
+/-- **honest_run_matches_table**: for all 4^4 level combinations, every list shape above and the
+    credentials "CLAIMTOBE works, FS does not" (so that in the two-method shapes the first common
+    method fails on the wire and the second completes): the WHOLE handshake of two honest endpoints —
+    both negotiations, the retry loop, both key set-ups, the post-authentication step — succeeds iff
+    the table does not say fail, with the table's outcome, and the client is explicitly denied
+    exactly in the failing cells. (Finite: decided by kernel evaluation; `honest_matches_spec` +
+    `negotiate_is_core` + `honest_auth_complete` are the statements for arbitrary lists.) -/
+theorem honest_run_matches_table : ∀ (sa ca se ce : Fin 4), ∀ sh ∈ shapes,
+    cellOK sa ca se ce sh (fun m => m == "CLAIMTOBE") = true := by
+  decide
+
+/-- **server_denies_iff**: the server answers with the explicit denial (and fails) exactly when its
+    `negotiateSecurity` fails — never a bare close for a policy mismatch -/
+theorem server_denies_iff (cfg : ServerCfg) (cli : ClientScript) (sid : String) :
+    (∃ e d, serverFull cfg cli sid = .denied e d) ↔
+    (negotiate ⟨cfg.auth, cfg.enc, cfg.methods, cfg.ciphers⟩ ⟨cli.auth, cli.enc, cli.methods, cli.ciphers⟩).2 ≠ none := by
+  unfold serverFull
+  rcases hneg : negotiate ⟨cfg.auth, cfg.enc, cfg.methods, cfg.ciphers⟩ ⟨cli.auth, cli.enc, cli.methods, cli.ciphers⟩ with ⟨d, nerr⟩
+  cases nerr with
+  | some e => simp
+  | none =>
+    simp only [ne_eq, not_true_eq_false, iff_false]
+    rintro ⟨e, d', h⟩
+    repeat' split at h
+    all_goals cases h
+
+/-- **client_reads_denial**: a client that receives a negotiation response whose ReturnCode is set
+    and is not AUTHORIZED fails with the "refused by the server" class — whatever else the response
+    says, whatever its own policy: the denial is a MESSAGE the client acts on, not a closed socket -/
+theorem client_reads_denial (cfg : ClientCfg) (srv : ServerScript) (rc : String)
+    (h : srv.returnCode = some rc) (h1 : rc ≠ "") (h2 : rc ≠ "AUTHORIZED") :
+    clientFull cfg srv = .error .refused := by
+  unfold clientFull
+  simp [rcRejected, h, h1, h2]
+
+/-- **server_mints_sid** / **client_learns_sid**: the session identifier is chosen by the server
+    (`sid` is its fresh draw) and the client's comes out of the post-authentication ad it READ — so
+    "both report the same session identifier" is the statement that the ad carries the server's. -/
+theorem server_mints_sid (cfg : ServerCfg) (cli : ClientScript) (sid : String) (o : Outcome) (d : Decision)
+    (h : serverFull cfg cli sid = .ok o d) : o.sid = sid := by
+  unfold serverFull at h
+  repeat' split at h
+  all_goals first | (simp only [SrvResult.ok.injEq] at h; rw [← h.1]) | cases h
+
+theorem client_learns_sid (cfg : ClientCfg) (srv : ServerScript) (o : Outcome) (h : clientFull cfg srv = .ok o) :
+    ∃ pa, srv.postAuth = some pa ∧ o.sid = pa.sid ∧ o.user = pa.user ∧ pa.sealed = o.streamKey.isSome := by
+  unfold clientFull at h
+  repeat' split at h
+  all_goals first
+    | (cases h; exact ⟨_, ‹srv.postAuth = some _›, rfl, rfl, Decidable.of_not_not (by assumption)⟩)
+    | cases h
 
 end Cedar.C10
